@@ -126,6 +126,13 @@ func (m *MockMQ) Subs() []string {
 	return r
 }
 
+// All returns every request made so far, in emission order.
+func (m *MockMQ) All() []*Req {
+	m.mu.Lock()
+	defer m.mu.Unlock()
+	return append([]*Req(nil), m.reqs...)
+}
+
 // Pending returns the unanswered requests in emission order.
 func (m *MockMQ) Pending() []*Req {
 	m.mu.Lock()
